@@ -2,6 +2,7 @@ use crate::bases::*;
 use std::borrow::Cow;
 use std::io::Read;
 use std::mem::ManuallyDrop;
+use std::sync::atomic::{AtomicBool, Ordering};
 use std::sync::{Arc, Condvar, Mutex, OnceLock};
 
 /*
@@ -32,6 +33,8 @@ struct SyncVecWr {
     data: ManuallyDrop<Vec<u8>>,
     total_size: usize,
     decoded: Arc<(Mutex<usize>, Condvar)>,
+    // Set (under the `decoded` lock) if the decompression stops before `total_size`.
+    failed: Arc<AtomicBool>,
 }
 
 unsafe impl Send for SyncVecWr {}
@@ -41,6 +44,7 @@ struct SyncVecRd {
     buffer: *const u8,
     total_size: usize,
     decoded: Arc<(Mutex<usize>, Condvar)>,
+    failed: Arc<AtomicBool>,
 }
 
 unsafe impl Send for SyncVecRd {}
@@ -84,18 +88,21 @@ impl SyncVecRd {
 fn create_sync_vec(size: usize) -> (SyncVecWr, SyncVecRd) {
     let buffer = Arc::new(Vec::with_capacity(size));
     let decoded = Arc::new((Mutex::new(0), Condvar::new()));
+    let failed = Arc::new(AtomicBool::new(false));
     let buffer_ptr = buffer.as_ptr();
     let rd = SyncVecRd {
         _arc: Arc::clone(&buffer),
         buffer: buffer_ptr,
         total_size: size,
         decoded: Arc::clone(&decoded),
+        failed: Arc::clone(&failed),
     };
     let rw = SyncVecWr {
         _arc: buffer,
         data: ManuallyDrop::new(unsafe { Vec::from_raw_parts(buffer_ptr as *mut u8, 0, size) }),
         total_size: size,
         decoded,
+        failed,
     };
     (rw, rd)
 }
@@ -119,10 +126,15 @@ fn decode_to_end<T: Read + Send>(
         let size = std::cmp::min(total_size - uncompressed, chunk_size);
         //  println!("decompress {size}");
 
-        uncompressed += decoder
+        let read = decoder
             .by_ref()
             .take(size as u64)
             .read_to_end(&mut buffer.data)?;
+        if read == 0 {
+            // The compressed stream ends before the declared size.
+            return Err(std::io::ErrorKind::UnexpectedEof.into());
+        }
+        uncompressed += read;
         #[cfg(jubako_verif)]
         crate::verif::point("dec.pre_publish", uncompressed as u64, total_size as u64);
         let (lock, cvar) = &*buffer.decoded;
@@ -152,14 +164,32 @@ impl SeekableDecoder {
                     .unwrap()
             })
             .spawn(move || {
-                decode_to_end(decoder, write_hand, 4 * 1024).unwrap();
+                let failed = Arc::clone(&write_hand.failed);
+                let decoded = Arc::clone(&write_hand.decoded);
+                if decode_to_end(decoder, write_hand, 4 * 1024).is_err() {
+                    // Tell the readers that what they are waiting for will never come.
+                    let (lock, cvar) = &*decoded;
+                    let _guard = lock.lock().unwrap();
+                    failed.store(true, Ordering::Release);
+                    cvar.notify_all();
+                }
             });
         Self { buffer: read_hand }
     }
 
     #[inline]
-    pub fn decode_to(&self, end: usize) {
-        self.buffer.wait_while(|d: &mut usize| *d < end);
+    pub fn decode_to(&self, end: usize) -> std::io::Result<()> {
+        let failed = &self.buffer.failed;
+        let decoded = self
+            .buffer
+            .wait_while(|d: &mut usize| *d < end && !failed.load(Ordering::Acquire));
+        if decoded < end {
+            return Err(std::io::Error::new(
+                std::io::ErrorKind::InvalidData,
+                "Cannot decompress cluster data",
+            ));
+        }
+        Ok(())
     }
 
     #[inline]
@@ -177,7 +207,7 @@ impl Source for SeekableDecoder {
             offset.force_into_usize() + buf.len(),
             self.buffer.total_size(),
         );
-        self.decode_to(end);
+        self.decode_to(end)?;
         let mut slice = &self.decoded_slice()[offset.force_into_usize()..];
         Read::read(&mut slice, buf)
     }
@@ -190,7 +220,7 @@ impl Source for SeekableDecoder {
                 "Out of slice",
             ));
         }
-        self.decode_to(end);
+        self.decode_to(end)?;
         let slice = self.decoded_slice();
         assert!(end <= slice.len());
         buf.copy_from_slice(&self.decoded_slice()[o..end]);
@@ -208,7 +238,7 @@ impl Source for SeekableDecoder {
                 self.size()
             )));
         }
-        self.decode_to(region.end().force_into_usize());
+        self.decode_to(region.end().force_into_usize())?;
         Ok(Cow::Borrowed(
             &self.decoded_slice()
                 [region.begin().force_into_usize()..region.end().force_into_usize()],
